@@ -111,7 +111,7 @@ Proof. unfold keys. rewrite map_map. apply map_ext. intros e. reflexivity. Qed.
 
 Lemma step_sorted s o : sorted_pool (pool s) -> sorted_pool (pool (fst (step s o))).
 Proof.
-  intros Hs. destruct o as [t v|t u v|h txs|vs|vs]; cbn [step].
+  intros Hs. destruct o as [t v|ep t u v|h txs|vs|vs]; cbn [step].
   - unfold inject. destruct (negb (hard_ok (unspent s) t v)); cbn [fst pool]; [exact Hs|now apply pool_put_sorted].
   - unfold inject_user, inject. destruct (negb u); [exact Hs|].
     destruct (negb (hard_ok (unspent s) t v)); [exact Hs|]. destruct (negb (v_soft v)); [exact Hs|].
@@ -161,7 +161,7 @@ Qed.
 
 (* user submissions must also satisfy the user and soft rules *)
 Lemma inject_user_admits_l s t uo v u g : sorted_pool (pool s) ->
-  In (u, g) (pool (fst (step s (InjectUser t uo v)))) -> ~ In (tid u) (keys (pool s)) ->
+  In (u, g) (pool (fst (step s (InjectUser ep t uo v)))) -> ~ In (tid u) (keys (pool s)) ->
   u = t /\ uo = true /\ hard_ok (unspent s) t v = true /\ v_soft v = true /\ g = true.
 Proof.
   intros Hs Hin Hnew. cbn [step] in Hin. unfold inject_user in Hin.
@@ -178,11 +178,11 @@ Qed.
 Lemma inject_rejected_l s o :
   match o with
   | InjectForeign t v => hard_ok (unspent s) t v = false
-  | InjectUser t u v => u && hard_ok (unspent s) t v && v_soft v = false
+  | InjectUser ep t u v => u && hard_ok (unspent s) t v && v_soft v = false
   | _ => False
   end -> fst (step s o) = s.
 Proof.
-  destruct o as [t v|t u v|h txs|vs|vs]; try contradiction; intros H; cbn [step].
+  destruct o as [t v|ep t u v|h txs|vs|vs]; try contradiction; intros H; cbn [step].
   - unfold inject. now rewrite H.
   - unfold inject_user. destruct u; [|reflexivity]. cbn [negb andb] in *.
     destruct (hard_ok (unspent s) t v); [|reflexivity]. cbn [negb andb] in *. now rewrite H.
@@ -201,7 +201,7 @@ Proof.
 Qed.
 
 Lemma inject_user_known_l s t u v : sorted_pool (pool s) -> In (tid t) (keys (pool s)) ->
-  keys (pool (fst (step s (InjectUser t u v)))) = keys (pool s).
+  keys (pool (fst (step s (InjectUser ep t u v)))) = keys (pool s).
 Proof.
   intros Hs Hk. cbn [step]. unfold inject_user.
   destruct (negb u); [reflexivity|]. destruct (negb (hard_ok (unspent s) t v)) eqn:E; [reflexivity|].
@@ -281,7 +281,7 @@ Qed.
 
 (* which operation admits transaction t, and under which verdict *)
 Definition admits (o : op) (t : txn) (v : verdict) : Prop :=
-  o = InjectForeign t v \/ (o = InjectUser t true v /\ v_soft v = true).
+  o = InjectForeign t v \/ (o = InjectUser ep t true v /\ v_soft v = true).
 
 Lemma step_new_entry s o t : sorted_pool (pool s) ->
   In t (map fst (pool (fst (step s o)))) ->
@@ -290,7 +290,7 @@ Proof.
   intros Hs Hin. apply in_map_iff in Hin. destruct Hin as [[u g] [E Hin]]. cbn [fst] in E. subst u.
   assert (Hold : forall x y, In (x, y) (pool s) -> In x (map fst (pool s))).
   { intros x y H. apply in_map_iff. exists (x, y). split; [reflexivity|exact H]. }
-  destruct o as [t0 v|t0 u v|h txs|vs|vs]; cbn [step] in Hin.
+  destruct o as [t0 v|ep t0 u v|h txs|vs|vs]; cbn [step] in Hin.
   - unfold inject in Hin. destruct (hard_ok (unspent s) t0 v) eqn:Eh; cbn [negb fst pool] in Hin; [|eauto].
     destruct (pool_put_entries _ _ _ _ _ Hs Hin) as [[H1 [H2 [H3|H3]]]|[H1 H2]]; [|now left|eauto].
     subst t0. right. exists v. split; [now left|exact Eh].
@@ -391,7 +391,7 @@ Qed.
 (* the node's "inputs unspent" answers agree with the model's unspent set *)
 Definition agrees (s : state) (o : op) : Prop :=
   match o with
-  | InjectForeign t v | InjectUser t _ v => v_unspent v = inputs_unspent (unspent s) t
+  | InjectForeign t v | InjectUser ep t _ v => v_unspent v = inputs_unspent (unspent s) t
   | ExecBlock _ _ => True
   | Refresh vs | RemoveInvalid vs =>
       covered vs (pool s) = true /\
@@ -432,7 +432,7 @@ Lemma model_meets_step_prop_l s o : sorted_pool (pool s) -> agrees s o ->
 Proof.
   intros Hs Ha. unfold step_prop. cbn [o_pool o_op o_out].
   rewrite proj_keys, (sorted_keys_spec _ (step_sorted s o Hs)). cbn [andb].
-  destruct o as [t v|t u v|h txs|vs|vs]; cbn [step agrees] in *.
+  destruct o as [t v|ep t u v|h txs|vs|vs]; cbn [step agrees] in *.
   - pose proof (inject_meets s t v _ Hs eq_refl (vhard_hard_ok _ _ _ Ha)) as H. cbn zeta in H.
     destruct (vhard v); destruct (snd (inject s t v)); try discriminate H; exact H.
   - pose proof (vhard_hard_ok _ _ _ Ha) as Hv. unfold inject_user. rewrite Hv.
